@@ -61,9 +61,9 @@ func (l *vfbLogger) Warn(kv ...interface{})               {}
 func (l *vfbLogger) Error(kv ...interface{})              { l.emit("error", "", kv) }
 func (l *vfbLogger) Fatal(kv ...interface{})              { atomic.AddInt64(l.fatals, 1); l.emit("fatal", "", kv) }
 func (l *vfbLogger) Panic(kv ...interface{})              { atomic.AddInt64(l.fatals, 1); l.emit("panic", "", kv) }
-func (l *vfbLogger) Infow(m string, kv ...interface{})    {}
-func (l *vfbLogger) Debugw(m string, kv ...interface{})   {}
-func (l *vfbLogger) Warnw(m string, kv ...interface{})    {}
+func (l *vfbLogger) Infow(m string, kv ...interface{})    { l.emit("info", m, kv) }
+func (l *vfbLogger) Debugw(m string, kv ...interface{})   { l.emit("debug", m, kv) }
+func (l *vfbLogger) Warnw(m string, kv ...interface{})    { l.emit("warn", m, kv) }
 func (l *vfbLogger) Errorw(m string, kv ...interface{})   { l.emit("error", m, kv) }
 func (l *vfbLogger) Fatalw(m string, kv ...interface{})   { atomic.AddInt64(l.fatals, 1); l.emit("fatal", m, kv) }
 func (l *vfbLogger) Panicw(m string, kv ...interface{})   { atomic.AddInt64(l.fatals, 1); l.emit("panic", m, kv) }
